@@ -86,11 +86,19 @@ func undefinedNames(msg string) []string {
 // toModel maps a path reported by the hook ("/r/t/..." already) unchanged.
 func convPos(p cmd.VerifPos) posT { return posT{p.File, p.Line} }
 
-var watchdog = 20 * time.Second
+var watchdog = 10 * time.Second
+
+// hung is set when a parse did not come back: its goroutine is still
+// running (and may eat processor and memory), so no further experiment is
+// started; the harness writes out what it has, the hang included.
+var hung bool
 
 func observe(in *input) obsT {
 	type ret struct{ r cmd.VerifC09Result }
 	var r cmd.VerifC09Result
+	if hung {
+		return obsT{Kind: "skipped"}
+	}
 	for attempt := 0; ; attempt++ {
 		ch := make(chan ret, 1)
 		go func() {
@@ -100,6 +108,7 @@ func observe(in *input) obsT {
 		case x := <-ch:
 			r = x.r
 		case <-time.After(watchdog):
+			hung = true
 			return obsT{Kind: "timedout"}
 		}
 		// The parser never closes the files it opens (subreader.f is never
